@@ -51,7 +51,7 @@ EXTENDS Integers, Sequences, FiniteSets, TLC, SequencesExt, Randomization
 
 CONSTANTS Tier,       \* "tiny" | "quick" | "thorough": size of the universe
           Variant,    \* "ref" | "deep" | "first" | "enter": the walk of get_rebind_dict
-          MaxLevel,   \* depth bound of the exhaustive runs (state constraint)
+          MaxLevel,   \* number of patch / rebind calls per behaviour in the exhaustive runs (0: the laws on the universe only)
           SimK        \* 0: quantify over whole argument sets; k > 0: over k random members (simulation)
 
 VARIABLES tree,       \* the symbolic value (the root object the user holds)
@@ -275,12 +275,16 @@ EvBefore(t, e1, e2) ==
     [] e1[1] = "post" /\ e2[1] = "post" -> PostBefore(t, e1[2], e2[2])
     [] e1[1] = "pre" /\ e2[1] = "post" -> ~LeftOf(t, e2[2], e1[2])
     [] OTHER -> LeftOf(t, e1[2], e2[2])
-TravRef(t, vis) ==
+\* every event of a walk that enters everything, in call order (depends on the tree only)
+AllEvents(t) ==
+  SortSeq(SetToSeq({<<"pre", p>> : p \in LocSet(t)} \cup {<<"post", p>> : p \in LocSet(t)}), LAMBDA a, b : EvBefore(t, a, b))
+TravRefIn(t, vis, all) ==
   LET R == Reached(t, vis)
-      full == SortSeq(SetToSeq({<<"pre", p>> : p \in R} \cup {<<"post", p>> : p \in R}), LAMBDA a, b : EvBefore(t, a, b))
+      full == SelectSeq(all, LAMBDA e : e[2] \in R)
       stops == {k \in 1..Len(full) : EvAct(vis, t, full[k]) = "STOP"}
   IN IF stops = {} THEN [ev |-> full, ok |-> TRUE]
      ELSE [ev |-> SubSeq(full, 1, CHOOSE k \in stops : \A j \in stops : k <= j), ok |-> FALSE]
+TravRef(t, vis) == TravRefIn(t, vis, AllEvents(t))
 
 -----------------------------------------------------------------------------
 (* 4b. The walks as the code performs them *)
@@ -452,19 +456,23 @@ Apply(c, vf, api, mode) ==
   /\ LET r == RebindOp(tree, <<c, vf>>, api = "rebind", mode) IN tree' = r.tree /\ out' = OutOf(r)
 
 ApiConds(api) == IF api = "patch" THEN Rng(PatchConds) ELSE Rng(RebindConds)
-Next == \E api \in P({"patch", "rebind", "rebind_nr"}) :
-          \E c \in P(ApiConds(api)), vf \in P(Rng(Vfs)), mode \in P(Rng(Modes)) : Apply(c, vf, api, mode)
+\* The universe is entered in two hops (boot -> chunk c -> tree U[i], i = c mod NChunks) so that the TLC workers share the
+\* trees: a worker checks the invariants of the states it generates.
+NChunks == 64
+Next ==
+  CASE act[1] = "boot" -> \E c \in 1..NChunks : c <= N /\ act' = <<"chunk", c>> /\ UNCHANGED <<tree, out>>
+    [] act[1] = "chunk" -> \E i \in P({j \in 1..N : j % NChunks = act[2] % NChunks}) :
+                            tree' = U[i] /\ act' = <<"init", i>> /\ out' = NoOut
+    [] OTHER -> /\ TLCGet("level") < 3 + MaxLevel
+                /\ \E api \in P({"patch", "rebind", "rebind_nr"}) :
+                     \E c \in P(ApiConds(api)), vf \in P(Rng(Vfs)), mode \in P(Rng(Modes)) : Apply(c, vf, api, mode)
 
-Init == /\ tree \in Rng(U)
-        /\ act = <<"init">>
+Init == /\ tree = Lv(<<>>)
+        /\ act = <<"boot">>
         /\ out = NoOut
 Spec == Init /\ [][Next]_vars
-LevelBound == TLCGet("level") <= MaxLevel
-\* simulation: one interesting start per behaviour
-SimInit == /\ tree \in RandomSubset(1, Rng(U))
-           /\ act = <<"init">>
-           /\ out = NoOut
-SimSpec == SimInit /\ [][Next]_vars
+\* the step runs identify states by the tree (every transition is still checked against RebindExact)
+TreeView == <<tree, IF act[1] \in {"boot", "chunk"} THEN act ELSE <<>>>>
 
 -----------------------------------------------------------------------------
 (* 8. Laws *)
@@ -478,12 +486,14 @@ OrdersAgree ==
        = SortSeq(SetToSeq(LocSet(tree)), LAMBDA p, q : PostBefore(tree, p, q))
 
 \* (c) traverse: call order, early stop and returned flag
-TraverseLaw == \A k \in Ix(Visitors) :
-  LET vis == Visitors[k]
-      op == TravOp(tree, vis, <<>>)
-      ref == TravRef(tree, vis)
-  IN /\ CutAtStop(tree, vis, op.ev) = ref.ev
-     /\ op.ok = ref.ok
+TraverseLaw ==
+  LET all == AllEvents(tree) IN
+  \A k \in Ix(Visitors) :
+    LET vis == Visitors[k]
+        op == TravOp(tree, vis, <<>>)
+        ref == TravRefIn(tree, vis, all)
+    IN /\ CutAtStop(tree, vis, op.ev) = ref.ev
+       /\ op.ok = ref.ok
 \* after the first STOP nothing new is visited: what follows are the postorder calls of the nodes that are still open
 UnwindLaw == \A k \in Ix(Visitors) :
   LET vis == Visitors[k]
